@@ -53,6 +53,7 @@ type vfSrv struct {
 }
 
 var (
+	vfUseGPU        bool
 	vfUnloadClients bool
 	vfEarlyCancel   bool
 	vfDrain         chan struct{}
@@ -138,9 +139,29 @@ func vfEstimate(gpus []discover.GpuInfo, f *ggml.GGML, projectors []string, opts
 
 var vfModels = []*Model{{ModelPath: "/m/a", ShortName: "a"}, {ModelPath: "/m/b", ShortName: "b"}, {ModelPath: "/m/c", ShortName: "c"}}
 
-var vfUseGPU bool
+// replacements used by the real Server.scheduleRunner
+func vfGetModel(name string) (*Model, error) {
+	for _, m := range vfModels {
+		if m.ShortName == name {
+			return m, nil
+		}
+	}
+	return nil, errors.New("model not found")
+}
 
-// one API request
+func vfModelOptions(m *Model, requestOpts map[string]any) (api.Options, error) {
+	opts := api.DefaultOptions()
+	opts.NumGPU = 0 // CPU placement path
+	if vfUseGPU {
+		opts.NumGPU = -1
+	}
+	if requestOpts["big"] != nil {
+		opts.NumCtx = 8192 // incompatible with a runner loaded with the default context
+	}
+	return opts, nil
+}
+
+// one API request, through the real Server.scheduleRunner (the handler side of the protocol)
 func vfClient(s *Scheduler, i int, nModels int, done chan int) {
 	m := vfModels[verifChoice(nModels)]
 	if vfUnloadClients && verifChoice(2) == 1 {
@@ -151,14 +172,10 @@ func vfClient(s *Scheduler, i int, nModels int, done chan int) {
 		done <- i
 		return
 	}
-	opts := api.DefaultOptions()
-	opts.NumGPU = 0 // CPU placement path
-	if vfUseGPU {
-		opts.NumGPU = -1
-	}
+	reqOpts := map[string]any{}
 	bigCtx := verifChoice(2) == 1
 	if bigCtx {
-		opts.NumCtx = 8192 // incompatible with a runner loaded with the default context
+		reqOpts["big"] = true
 	}
 	var ka *api.Duration
 	switch verifChoice(3) {
@@ -168,49 +185,55 @@ func vfClient(s *Scheduler, i int, nModels int, done chan int) {
 		ka = &api.Duration{Duration: time.Minute}
 	}
 	ctx := newVfCtx()
-	okc, errc := s.GetRunner(ctx, m, opts, ka)
+	reported := false
+	var using *vfSrv // the runner this request is currently using ("in progress" ends at cancellation)
 	if vfEarlyCancel && verifChoice(2) == 1 {
-		// the caller gives up before being answered; like the HTTP handler it keeps listening,
-		// and is never counted as a user of the runner
-		verifNote("early-cancel")
-		ctx.cancel()
-		vfCancelled[i] = true
+		// the caller goes away at some point while the request is being scheduled; its handler
+		// may stay blocked (a cancelled request receives AT MOST one reply), so the harness does
+		// not wait for it
 		go func() {
-			// a late reply may still arrive (at most one); the requester no longer uses the runner
-			select {
-			case <-okc:
-				vfReplies[i]++
-			case <-errc:
-				vfReplies[i]++
-			case <-vfDrain:
+			verifNote("early-cancel")
+			vfCancelled[i] = true
+			if using != nil {
+				using.users--
+				using = nil
+			}
+			ctx.cancel()
+			if !reported {
+				reported = true
+				done <- i
 			}
 		}()
-		done <- i
-		return
 	}
-	select {
-	case r := <-okc:
+	srv := &Server{sched: s}
+	llama, _, opts, err := srv.scheduleRunner(ctx, m.ShortName, nil, reqOpts, ka)
+	vfReplies[i]++
+	if err == nil {
 		verifNote("got-runner")
-		vfReplies[i]++
-		srv, _ := r.llama.(*vfSrv)
-		verifAssert(srv != nil, "runner-handed-out-without-server")
-		if srv != nil {
-			verifAssert(srv.closes == 0, "closed-runner-handed-to-a-request")
-			verifAssert(srv.path == m.ModelPath, "runner-is-for-the-requested-model")
+		fake, _ := llama.(*vfSrv)
+		verifAssert(fake != nil, "runner-handed-out-without-server")
+		if fake != nil && !vfCancelled[i] {
+			verifAssert(fake.closes == 0, "closed-runner-handed-to-a-request")
+			verifAssert(fake.path == m.ModelPath, "runner-is-for-the-requested-model")
 			if bigCtx {
-				verifAssert(srv.opts.NumCtx >= 8192, "incompatible-options-served-by-a-runner-started-with-them")
+				verifAssert(fake.opts.NumCtx >= 8192 && opts.NumCtx >= 8192, "incompatible-options-served-by-a-runner-started-with-them")
 			}
-			srv.users++
+			fake.users++
+			using = fake
 			verifYield() // the request is in progress
-			srv.users--
+			if using != nil {
+				using.users--
+				using = nil
+			}
 		}
-		ctx.cancel()
-	case <-errc:
+	} else {
 		verifNote("got-error")
-		vfReplies[i]++
-		ctx.cancel()
 	}
-	done <- i
+	ctx.cancel()
+	if !reported {
+		reported = true
+		done <- i
+	}
 }
 
 // VerifSched: nModels models, nReq concurrent requests, loaded-runner limit, queue length.
